@@ -274,7 +274,13 @@ func (gen *generator) irFloatType(t types.Type, old *ast.FloatType) (types.Type,
 		panic(fmt.Errorf("invalid IR type for AST floating-point type; expected *types.FloatType, got %T", t))
 	}
 	// Floating-point kind.
-	typ.Kind = asmenum.FloatKindFromString(old.FloatKind().Text())
+	kind := old.FloatKind().Text()
+	if kind == "bfloat" {
+		// The IR has no representation of the bfloat type (yet); report it as
+		// an error (asmenum.FloatKindFromString panics on unknown kinds).
+		return nil, errors.Errorf("support for floating-point kind %q not yet implemented", kind)
+	}
+	typ.Kind = asmenum.FloatKindFromString(kind)
 	return typ, nil
 }
 
